@@ -9,11 +9,14 @@ import (
 	"net"
 	"sort"
 	"strings"
+	"sync"
+	"sync/atomic"
 	"time"
 
 	v1 "github.com/fatedier/frp/pkg/config/v1"
 	"github.com/fatedier/frp/pkg/msg"
 	"github.com/fatedier/frp/pkg/util/util"
+	"github.com/fatedier/frp/server/proxy"
 	"verifharness/hx"
 )
 
@@ -622,6 +625,40 @@ func directedHistory(g *hx.Gen, w *world, d directed) {
 	}
 }
 
+func managerAddStress(rounds int) (twoWinners, done int) {
+	pm := proxy.NewManager()
+	const n = 4
+	var start atomic.Int32
+	var wins atomic.Int32
+	var ready, fin sync.WaitGroup
+	for r := 0; r < rounds; r++ {
+		start.Store(0)
+		wins.Store(0)
+		ready.Add(n)
+		fin.Add(n)
+		for i := 0; i < n; i++ {
+			go func() {
+				ready.Done()
+				for start.Load() == 0 {
+				}
+				if pm.Add("p", nil) == nil {
+					wins.Add(1)
+				}
+				fin.Done()
+			}()
+		}
+		ready.Wait()
+		start.Store(1)
+		fin.Wait()
+		if wins.Load() != 1 {
+			twoWinners++
+		}
+		pm.Del("p")
+		done++
+	}
+	return
+}
+
 // ---- driver ----
 
 func runSessions(cfg *hx.RunCfg) error {
@@ -679,6 +716,13 @@ func runSessions(cfg *hx.RunCfg) error {
 			samples = append(samples, text)
 		}
 	}
+	// direct stress of proxy.Manager.Add: four goroutines behind a spin barrier ask for one name; exactly one may win
+	if two, rounds := managerAddStress(3000); two > 0 {
+		fails = append(fails, map[string]any{"key": "stress:manager-add-two-winners",
+			"what": fmt.Sprintf("proxy.Manager.Add accepted one name for more than one caller in %d of %d rounds (4 goroutines behind a spin barrier)", two, rounds),
+			"case": "managerAddStress: pm.Add(\"p\", nil) x4 concurrently; pm.Del(\"p\"); repeat"})
+	}
+	kinds["manager-add-stress-rounds"] = 3000
 	cf := &hx.CaseFile{
 		Imports: "From FRP Require Import Corr.C12.\nOpen Scope N_scope.\n",
 		Typ:     "case",
